@@ -143,7 +143,7 @@ Definition step_C05 (pd : digest) (o : op) (ob : obs) : bool :=
                                       | None => [] end
                           | None => [] end) targets in
           mset_eqb (fun a b => N.eqb (fst a) (fst b) && smsg_eqb (snd a) (snd b)) copies expect
-          && forallb (fun e => negb (N.eqb (fst e) c)) copies
+          && forallb (fun e => negb (N.eqb (fst e) c) || match snd e with SMsg _ _ _ _ (Some (RcptVirtual _)) _ => true | _ => false end) copies
       end
   | _ => true
   end.
